@@ -251,6 +251,9 @@ impl Scenario for C17ArbitraryBytes {
     fn name(&self) -> &'static str {
         "arbitrary_byte_strings"
     }
+    fn fresh_thread(&self) -> bool {
+        false
+    }
     fn run(&self, cx: &mut Cx) -> Result<(), Violation> {
         let fs = SimFs::new("/work", cx.tape.draw_u64());
         fs.install();
